@@ -203,11 +203,13 @@ def redistribution_case():
         I.local_read_facts = {(FN, "mesh_x_sto"): sto_read,
                               (FN, "tot_species"): lambda I_, fr, e, idx: (z3.And(e >= 0, K.int_valued_fact(e)) if g.get("floored")
                                                                            else e >= 0),
+                              (FN, "totreal_species"): lambda I_, fr, e, idx: e >= 0,
                               (FN, "dtot_species"): lambda I_, fr, e, idx: K.int_valued_fact(e),
                               (FN, "tot2_species"): lambda I_, fr, e, idx: K.int_valued_fact(e)}
         I.local_store_checks = {(FN, "mesh_x_sto"): sto_store,
                                 (FN, "tot_species"): lambda I_, fr, x, idx: (z3.And(x >= 0, K.int_valued_goal(x, c)) if g.get("floored")
                                                                              else x >= 0),
+                                (FN, "totreal_species"): lambda I_, fr, x, idx: x >= 0,
                                 (FN, "dtot_species"): lambda I_, fr, x, idx: K.int_valued_goal(x, c),
                                 (FN, "tot2_species"): lambda I_, fr, x, idx: K.int_valued_goal(x, c)}
         I.param_facts = {"mesh_x": lambda e: e >= 0}
